@@ -15,7 +15,8 @@ RULE_EXTRA = ('a slice of the reversed peptide (interval list in descending orde
 
 def _mass(pp, a):
     o, m = call(pp.mass, a)
-    return fix(m) if o == "ret" else []
+    # no mass: the call raised, or a name like 'inf' / 'nan' was weighed as a float under a label (not a number to compare)
+    return fix(m) if o == "ret" and m == m and abs(m) != float("inf") else []
 
 
 def _three(pp, A, meth, kwargs, strfn=None, strargs=()):
@@ -43,6 +44,15 @@ def _three(pp, A, meth, kwargs, strfn=None, strargs=()):
             results.append({"via": "str_unparsable", "ann": anngen.empty("")})
         else:
             results.append({"via": "str", "ann": project.ann(c)})
+        # the same string-level function writing explicit plus signs, and fed an annotation OBJECT (which it must leave alone)
+        o5, s5 = call(lambda: strfn(text, *strargs, include_plus=True))
+        o6, c5 = call(pp.parse, s5) if o5 == "ret" else (o5, None)
+        results.append({"via": "strplus", "ann": project.ann(c5)} if o6 == "ret" else {"via": "str_unparsable", "ann": anngen.empty("")})
+        obj = anngen.build(pp, A)
+        o7, s7 = call(lambda: strfn(obj, *strargs))
+        o8, c7 = call(pp.parse, s7) if o7 == "ret" else (o7, None)
+        results.append({"via": "fnobj", "ann": project.ann(c7)} if o8 == "ret" else {"via": "str_unparsable", "ann": anngen.empty("")})
+        results.append({"via": "ARG", "ann": project.ann(obj)})
     return "ret", results, min_, mout
 
 
